@@ -265,7 +265,7 @@ ROUTES = {
     "from-inverse-covariance": ("PCAVectorModel.init_from_covariance_matrix(inv(C), ..., is_inverse=True) - full rank only", "model.increment(B)", (1, 0)),
     "pcmodel-from-components": ("PCAModel.init_from_components(pca(X), mean PointCloud)", "model.increment([PointCloud])", (1, 0)),
     "pcmodel-from-covariance": ("PCAModel.init_from_covariance_matrix(C, mean PointCloud, n, centred)", "model.increment([PointCloud])", (1, 0)),
-    "ipca-eps": ("pca(X, centre)", "ipca(B, U, l, n, m_a=m, centred=c, eps=1e-10 * l[0]): the documented threshold given at the scale of the data", (1, 0)),
+    "ipca-eps": ("pca(X, centre)", "ipca(B, U, l, n, m_a=m, centred=c, eps=1e-8): the documented (relative) threshold given by the caller", (1, 0)),
     "noinplace": ("PCAVectorModel(X, inplace=False) on the caller's own array", "model.increment(B, forgetting_factor=1.0)", (1, 0)),
 }
 ROUTE_DATA = ["gen", "zero", "lowrank", "zcol", "zmean"]
@@ -335,7 +335,7 @@ class IpcaRoute(object):
         elif r == "ipca-positional":
             out = ipca(B, U, l, n, m, 1.0, 1e-10, c)
         elif r == "ipca-eps":
-            out = ipca(B, U, l, n, m_a=m, centred=c, eps=1e-10 * float(l[0]))
+            out = ipca(B, U, l, n, m_a=m, centred=c, eps=1e-8)
         else:
             out = ipca(B, U, l, n, m_a=m, f=1.0, centred=c)
         for name, a, k in zip(("B", "U_a", "l_a", "m_a"), (B, U, l, m), keep):
@@ -706,13 +706,12 @@ class C11(Check):
                             for route in ROUTES:
                                 if route_exists(route, d, centred, kind, b):
                                     out.append(("pca", d, n, centred, kind, "route:" + route, 1, b))
-        # scale letters (small subset: d = 5 and 10, n = 6): the plain route and the explicit module-level route at x1e6 and
-        # +1e6 (centred), the eps-given route also at x1e-6 and x1e-9 (see assumptions() for the model route there); the
-        # equal-mean letters; one large-size letter (200 features)
+        # scale letters (small subset: d = 5 and 10, n = 6): every scale on the plain route and on the module-level routes with
+        # the centring inferred, given, and with eps given; the equal-mean letters; one large-size letter (200 features)
         for d in (5, 10):
             for centred in (1, 0):
                 for b in range(2, 6):
-                    for feed, letters in (("array", ["x1e6", "+1e6"]), ("route:ipca-explicit", ["x1e6", "+1e6"]), ("route:ipca-eps", ["x1e6", "x1e-6", "x1e-9", "+1e6"])):
+                    for feed, letters in (("array", list(SCALES)), ("route:ipca-infer", list(SCALES)), ("route:ipca-explicit", list(SCALES)), ("route:ipca-eps", list(SCALES))):
                         for letter in letters:
                             if letter == "+1e6" and not centred:
                                 continue
@@ -1121,8 +1120,7 @@ class C11(Check):
         fails = []
         m = st["model"]
         where = self._where(st)
-        small = st["fam"] == "pca" and st["root"][4].endswith(("@x1e-6", "@x1e-9"))  # the plain route cannot be run there, see assumptions()
-        if st["fam"] == "pca" and st["feed"].startswith("route:") and not small:
+        if st["fam"] == "pca" and st["feed"].startswith("route:"):
             from menpo.model import PCAVectorModel
 
             b = st["root"][7]
@@ -1311,10 +1309,8 @@ class C11(Check):
             "scale letters: tolerances are relative to the magnitude of the (scaled) payload - mean: max|X|, eigenvalues: largest eigenvalue, precision: largest entry - and 100 x wider for the "
             "+1e6 offset letter (eps * offset / spread = 1e-10 is the accuracy of centring such data); only well-conditioned configurations: the offset letter is run on centred PCA and on "
             "difference features (GMRF subtraction mode, common offset) only",
-            "NOT letters (reported to the coordinator): (1) x1e-6 / x1e-9 on the model route - ipca() discards eigenvalues below the ABSOLUTE eps = 1e-10 (documented parameter, not reachable "
-            "through increment()) while pca() uses a relative limit: PCAVectorModel(1e-5 * X).increment(..) loses components, at 1e-6 * X increment raises ValueError (0 components), at 1e9 * X "
-            "it keeps a spurious component; those scales are run only through the route ipca-eps, which passes eps at the scale of the data.  (2) the offset letter for the GMRF in "
-            "concatenation mode / edgeless graphs - the running covariance update n m m^T + X^T X - (n + n') m' m'^T cancels: offset / spread = 1e3 gives a relative precision error of 1e-8, 1e6 gives 2e-3",
+            "NOT a letter: the offset letter for the GMRF in concatenation mode / edgeless graphs - the running covariance update n m m^T + X^T X - (n + n') m' m'^T cancels "
+            "(conditioning): offset / spread = 1e3 gives a relative precision error of 1e-8, 1e6 gives 2e-3; the multiplicative scales run on every route since fix D38",
             "'random chunkings for larger n' of the quantifier are sampling and outside the technique; every composition of every n in scope is covered instead",
             "states reached by different chunkings of the same prefix are merged when their observations agree within a tenth of the tolerance (after their own step oracle passed); "
             "merge=0 roots and the thorough-tier confluence re-expansion do not rely on that abstraction",
